@@ -48,6 +48,10 @@ def normalize_polarization(illum_polarization):
     return (illum_polarization / np.sqrt((illum_polarization**2).sum()))[:2]
 
 
+# npd in mie_f/scfodim.for
+MAX_SPHERES = 20
+
+
 class Multisphere(ScatteringTheory):
     """
     Exact scattering from a cluster of spheres.
@@ -56,7 +60,7 @@ class Multisphere(ScatteringTheory):
     numerical method that accounts for multiple scattering and near-field
     effects (see [Fung2011]_, [Mackowski1996]_).  This approach is much more
     accurate than Mie superposition, but it is also more computationally
-    intensive.  The Multisphere code can handle any number of spheres;
+    intensive.  The Multisphere code can handle up to 20 spheres as compiled;
     see notes below for details.
 
     Attributes
@@ -93,7 +97,7 @@ class Multisphere(ScatteringTheory):
     since the radial component falls off as 1/kr^2.
 
     scfodim.for contains three parameters, all integers:
-     * nod: Maximum number of spheres
+     * npd: Maximum number of spheres
      * nod: Maximum order of individual sphere expansions. Will depend on
             size of largest sphere in cluster.
      * notd: Maximum order of cluster-centered expansion. Will depend on
@@ -166,6 +170,12 @@ class Multisphere(ScatteringTheory):
                 raise TheoryNotCompatibleError(self, scatterer, "Multisphere" +
                                                " cannot compute scattering" +
                                                " from layered particles.")
+
+        # the Fortran work arrays are dimensioned for npd spheres (scfodim.for)
+        # and are not checked there: more spheres overwrite memory
+        if len(scatterer.scatterers) > MAX_SPHERES:
+            raise InvalidScatterer(scatterer, "Multisphere is compiled for " +
+                                   "at most {} spheres".format(MAX_SPHERES))
 
         # check that the parameters are in a range where the multisphere
         # expansion will work
